@@ -2,6 +2,7 @@
 //! built with `--cfg oxfordcontrol_clarabel_rs_verif`).  See /verif/DESIGN.md.
 #![allow(non_snake_case, dead_code, unused_imports, clippy::all)]
 
+extern crate alloc;
 pub mod fp;
 pub mod jet;
 #[cfg(kani)]
@@ -19,7 +20,7 @@ pub mod c08;
 pub mod c09;
 #[cfg(feature = "c10")]
 pub mod c10;
-#[cfg(feature = "c11")]
+#[cfg(any(feature = "c11", feature = "c08"))]
 pub mod c11;
 #[cfg(feature = "c12")]
 pub mod c12;
